@@ -303,6 +303,150 @@ def float_table(schema, doc):
     return tbl
 
 
+# ------------------------------------------------------------------------------------------------ independent reading
+
+
+def _u16_to_cp(text, u):
+    """Code-point offset of the UTF-16 code-unit offset u in text; an offset that is not a boundary is passed through."""
+    if text is None or text == "":
+        return u
+    acc = 0
+    for i, ch in enumerate(text):
+        if acc == u:
+            return i
+        acc += 2 if ord(ch) > 0xFFFF else 1
+    return len(text) if acc == u else u
+
+
+def _tok(kind, t):
+    if kind == "int":
+        return ["i", int(t)]
+    if kind == "flt":
+        return ["f", scen.fl(float(t))]
+    if kind == "bool":
+        if t not in ("true", "false"):
+            raise ValueError(t)
+        return ["b", t == "true"]
+    raise ValueError(kind)
+
+
+_ELEM = {T + "IntegerArray": "int", T + "ShortArray": "int", T + "LongArray": "int", T + "IntegerList": "int",
+         T + "FloatArray": "flt", T + "DoubleArray": "flt", T + "FloatList": "flt", T + "BooleanArray": "bool"}
+
+
+def _coll(rng, attr, kids):
+    """Elements of a collection of type rng written as one attribute / as child elements; None: nothing written."""
+    if rng in (T + "StringArray", T + "StringList"):
+        if kids:
+            return [None if t == "" else ["s", t] for t in kids]
+        if attr is None:
+            return None
+        if attr != "":
+            raise ValueError("string collection as attribute")
+        return []
+    if attr is None:
+        return None
+    if rng == T + "ByteArray":
+        return [["i", b] for b in bytes.fromhex(attr)]
+    if rng in (scen.FS_ARRAY, scen.FS_LIST):
+        return [None if int(t) == 0 else ["ref", int(t)] for t in attr.split()]
+    return [_tok(_ELEM[rng], t) for t in attr.split()]
+
+
+def py_denote(schema, doc):
+    """What the document says under the UIMA XMI rules, in the format of scen.canon (all feature structures)."""
+    sofas, views, fs = {}, {}, {}
+    for e in doc["elems"]:
+        a = dict(e["attrs"])
+        k = xmlabs.kind(e)
+        if k == "Sofa":
+            st = a.get("sofaString")
+            sofas[int(a["xmi:id"])] = {"id": int(a["xmi:id"]), "num": int(a["sofaNum"]), "name": a["sofaID"],
+                                       "text": None if st is None else [ord(c) for c in st], "mime": a.get("mimeType"),
+                                       "uri": a.get("sofaURI"), "arr": None if a.get("sofaArray") is None else int(a["sofaArray"]),
+                                       "members": [], "_s": st}
+        elif k == "View":
+            views.setdefault(int(a["sofa"]), []).extend(int(t) for t in a.get("members", "").split())
+    for e in doc["elems"]:
+        if xmlabs.kind(e) != "FS":
+            continue
+        a = dict(e["attrs"])
+        tn = type_of_elem(e)
+        ti = schema[tn]
+        kids = {}
+        for kname, t in e["kids"]:
+            kids.setdefault(kname, []).append(t)
+        feats = {}
+        if tn in scen.ARRS or tn == scen.FS_ARRAY:
+            for fd in ti["feats"]:
+                feats[fd[1]] = None
+            c = _coll(tn, a.get("elements"), kids.get("elements"))
+            feats["elements"] = None if c is None else ["list", c]
+        else:
+            is_ann = scen.ANNOTATION in ti["anc"]
+            base = T + "AnnotationBase" in ti["anc"]
+            own = sofas.get(int(a["sofa"])) if (is_ann and "sofa" in a) else None
+            for fd in ti["feats"]:
+                _pn, xn, rng, _el, multi = fd
+                p = prim_of(schema, rng)
+                v = a.get(xn)
+                if p:
+                    if v is None:
+                        feats[xn] = None
+                    elif p == T + "String":
+                        feats[xn] = ["s", v]
+                    elif p in FLOAT_PRIMS:
+                        feats[xn] = _tok("flt", v)
+                    elif p == T + "Boolean":
+                        feats[xn] = _tok("bool", v)
+                    else:
+                        z = int(v)
+                        if is_ann and xn in ("begin", "end") and own is not None:
+                            z = _u16_to_cp(own["_s"], z)
+                        feats[xn] = ["i", z]
+                elif multi or rng not in COLL_NAMES:
+                    if v is None or int(v) == 0:
+                        feats[xn] = None
+                    else:
+                        feats[xn] = ["sofa" if (xn == "sofa" and base) else "ref", int(v)]
+                else:
+                    c = _coll(rng, v, kids.get(xn))
+                    feats[xn] = None if c is None else ["coll", rng, c]
+        fs[int(a["xmi:id"])] = {"type": tn, "feats": feats}
+    for i, so in sofas.items():
+        so["members"] = sorted(views.get(i, []))
+        del so["_s"]
+    out = sorted(sofas.values(), key=lambda x: x["id"])
+    if not any(x["name"] == "_InitialView" for x in out):
+        ids = list(sofas) + list(fs) + [0]
+        out.append({"id": max(ids) + 1, "num": max([x["num"] for x in out] + [0]) + 1, "name": "_InitialView", "text": None,
+                    "mime": None, "uri": None, "arr": None, "members": []})
+    return {"sofas": out, "fs": fs}
+
+
+def reachable(den):
+    """Ids of the feature structures a reader must keep: view members, sofa arrays and what they refer to."""
+    todo = [m for so in den["sofas"] for m in so["members"]] + [so["arr"] for so in den["sofas"] if so["arr"] is not None]
+    seen = set()
+
+    def refs(v):
+        if isinstance(v, list):
+            if v and v[0] == "ref":
+                yield v[1]
+            elif v and v[0] in ("coll", "list"):
+                for x in (v[-1] or []):
+                    yield from refs(x)
+
+    while todo:
+        i = todo.pop()
+        if i in seen or i not in den["fs"]:
+            continue
+        seen.add(i)
+        for v in den["fs"][i]["feats"].values():
+            todo.extend(refs(v))
+    return seen
+
+
 # ------------------------------------------------------------------------------------------------ engine interface
 
 
@@ -326,6 +470,23 @@ def _norm(c):
 
 def oracle(cassis, sc, obs):
     a, b = _norm(obs["canon"]), _norm(obs["base"])
+    # (1) what the variant document says, read independently (closed documents only: every fixture but one)
+    schema = {n: {"anc": v["anc"], "feats": [tuple(f) for f in v["feats"]]} for n, v in obs["schema"].items()}
+    try:
+        den = py_denote(schema, obs["doc"])
+    except (KeyError, ValueError) as e:  # not a document the rules give a meaning to
+        den = None
+    if den is not None and not (set(den["fs"]) & {x["id"] for x in den["sofas"]}):
+        keep = reachable(den)
+        want = _norm({"sofas": den["sofas"], "fs": {i: den["fs"][i] for i in keep}})
+        if a["sofas"] != want["sofas"]:
+            return "views/sofas are not the ones the document describes: loaded %s, document %s" % (
+                json.dumps(a["sofas"])[:400], json.dumps(want["sofas"])[:400])
+        for i in sorted(set(a["fs"]) | set(want["fs"]), key=int):
+            if a["fs"].get(i) != want["fs"].get(i):
+                return "feature structure %s is not the one the document describes: loaded %s, document %s" % (
+                    i, json.dumps(a["fs"].get(i))[:400], json.dumps(want["fs"].get(i))[:400])
+    # (2) the same content as the base presentation
     if a == b:
         return None
     if a["sofas"] != b["sofas"]:
